@@ -90,7 +90,7 @@ struct tcp_run
 		}
 		if (accs.count(fault_obj))
 		{
-			if (!accs[fault_obj]) return;
+			if (!accs[fault_obj] || fault_what == "move") return;
 			json::object e; e["e"] = fault_what == "cancel" ? "CancelAcc" : "CloseAcc"; e["l"] = fault_obj; e["t"] = t; e["how"] = fault_what;
 			rec.emit(e);
 			error_code ec;
@@ -108,6 +108,21 @@ struct tcp_run
 		// connect was issued, an accepted socket once the accept completed (before that it is an object
 		// the accept merely refers to, which the caller must keep alive and untouched)
 		if (sd.role == "c" ? sd.conn == 0 : !sd.connected) return;
+		if (fault_what == "move")
+		{
+			// moving is only defined for a socket with no operation outstanding (its packets may well be in queues,
+			// its segments unacknowledged): the new object takes over, the source is destroyed
+			if (sd.reading || sd.writing || !sd.connected || sd.closed) return;
+			json::object e; e["e"] = "Move"; e["s"] = sd.name; e["conn"] = sd.conn; e["role"] = sd.role; e["t"] = t;
+			rec.emit(e);
+			in_api = true;
+			std::unique_ptr<tcp::socket> n(new tcp::socket(std::move(*socks[sd.name])));
+			socks[sd.name].reset();
+			socks[sd.name] = std::move(n);
+			sd.sock = socks[sd.name].get();
+			in_api = false;
+			return;
+		}
 		if (fault_what == "close") { do_close(sd); return; }
 		json::object e; e["e"] = fault_what == "cancel" ? "Cancel" : "Close"; e["s"] = sd.name; e["conn"] = sd.conn; e["role"] = sd.role;
 		e["t"] = t; e["how"] = fault_what;
